@@ -295,6 +295,7 @@ def run(ctx):
     # let_var_pos / assign_var_pos moved it (then the kind is let/assign/for, not a value kind)
     lines = []
     meta = []
+    n_skip_exit = 0
     for pi, off, i, kind in oracle_jobs:
         src = progs[pi]
         if i["res"] == "value" and i.get("pos"):
@@ -312,6 +313,12 @@ def run(ctx):
             nn = [m.start() for m in re.finditer(r"^(?=\S)", src, re.M) if m.start() > item_end]
             item_end = nn[0] if nn else len(src)
         item = src[item_start:item_end]
+        if re.search(r"\b(break|continue|return)\b", src[a:b]):
+            # wrapping the expression in a call would move its exit statement into operand position, which
+            # changes what the instrumented program does (and runs into C02/break-continue-in-operand-position):
+            # not observable this way (false alarm found by the first thorough run)
+            n_skip_exit += 1
+            continue
         wrapped = item[:a - item_start] + "__obs(" + src[a:b] + ")" + item[b - item_start:]
         if item.startswith("test "):
             new = src[:item_start] + wrapped + src[item_end:] + "\n" + OBS_FUN
@@ -346,6 +353,7 @@ def run(ctx):
                      "eval-up-to reported %r but the expression's first value in the run is %r" % (i["display"], obs[0]),
                      src=progs[pi], offset=off, instrumented=new)
     ctx.cov["oracle_expression_never_evaluated"] = n_uneval
+    ctx.cov["oracle_skipped_expression_contains_exit_statement"] = n_skip_exit
     ctx.cov["oracle_instrumented_runs"] = n_or
     ctx.cov["oracle_skipped_unparsable_instrumentation"] = n_or_skip
 
